@@ -32,6 +32,7 @@ func checkC14(c *Ctx) {
 	c.Rule("C14.R3", "preview changes nothing: on the PreviewOnly edge no mutation construct is reachable and Matched is the length of the same selection")
 	c.Rule("C14.R4", "cancel voids the lease: every cancel construct clears lease id/expiry (and the memory lease index)")
 	c.Rule("C14.R5", "handler ↔ store table: each admin endpoint path for an operator mutation reaches exactly the Store method of that operation and no other mutating method")
+	c.Rule("C14.R6", "a named criterion stays a criterion: the admin parsers of optional filter values return, on accepting paths, exactly the value whose non-emptiness they established (no further trimming that could turn a named route such as \"/\" into the empty 'no criterion' value)")
 
 	// ---- R1 ----
 	n := 0
@@ -87,6 +88,7 @@ func checkC14(c *Ctx) {
 	checkPreviewEffectFree(c, "C14.R3")
 	checkLeaseCleared(c, "C14.R4", func(root string) bool { return strings.HasPrefix(root, "Cancel") })
 	checkAdminHandlerTable(c, "C14.R5")
+	checkOptionalCriterionParsers(c, "C14.R6")
 }
 
 func checkFilterSelection(c *Ctx, rule string) {
